@@ -11,6 +11,8 @@ type Directive struct {
 	Wid   int  `json:"wid"`   // index into widths
 	Prec  int  `json:"prec"`  // index into precs
 	Verb  rune `json:"verb"`
+	// FlagStr, when not empty, is the flag text written as is (flags in another ORDER than "+-# 0", or repeated)
+	FlagStr string `json:"flag_text,omitempty"`
 }
 
 const flagChars = "+-# 0"
@@ -37,6 +39,9 @@ var letterVerbs = func() []rune {
 var oddVerbs = []rune{'!', '日', 'é', '‹', 0xfffd, '_'}
 
 func (d Directive) flagString() string {
+	if d.FlagStr != "" {
+		return d.FlagStr
+	}
 	var b strings.Builder
 	for i := 0; i < 5; i++ {
 		if d.Flags&(1<<i) != 0 {
@@ -78,6 +83,9 @@ func (d Directive) String() string {
 // zeroMeetsMinus: the directive combines the zero flag with a minus flag
 // (written, or produced by a negative star width) - semantics changed across Go releases.
 func (d Directive) zeroMeetsMinus() bool {
+	if d.FlagStr != "" {
+		return strings.Contains(d.FlagStr, "0") && (strings.Contains(d.FlagStr, "-") || (widths[d.Wid].Star && widths[d.Wid].Arg < 0))
+	}
 	if d.Flags&16 == 0 && widths[d.Wid].Text != "0" { // a width written "0" is parsed as the zero flag
 		return false
 	}
@@ -200,6 +208,37 @@ func numberFormats() []string {
 				"%["+n+"]*[1]"+v, "%[2]*["+n+"]"+v, "x%["+n+"]", "%["+n)
 			if n != "" && n[0] != ' ' && n[0] != '-' && n[0] != '+' && len(n) < 8 {
 				out = append(out, "%"+n+v, "%."+n+v, "%-"+n+"."+n+v)
+			}
+		}
+	}
+	return out
+}
+
+// flagOrderDirectives: every ordered pair and triple of flag characters (orders other than the canonical one, and
+// repetitions), with and without a width, for a few verbs. Flags set from the text so that capture/compare works.
+func flagOrderDirectives() []Directive {
+	var texts []string
+	for _, a := range flagChars {
+		for _, b := range flagChars {
+			texts = append(texts, string([]rune{a, b}))
+			for _, c := range flagChars {
+				texts = append(texts, string([]rune{a, b, c}))
+			}
+		}
+	}
+	var out []Directive
+	for _, t := range texts {
+		fl := 0
+		for i, c := range flagChars {
+			if strings.ContainsRune(t, c) {
+				fl |= 1 << i
+			}
+		}
+		for _, w := range []int{0, 3, 6, 7} {
+			for _, p := range []int{0, 3} {
+				for _, v := range "dvsxfq" {
+					out = append(out, Directive{Flags: fl, Wid: w, Prec: p, Verb: v, FlagStr: t})
+				}
 			}
 		}
 	}
